@@ -70,4 +70,57 @@ def chainTried (cfg : PortCfg) (a : PoolAttempt) (pivot : Nat) (f : Nat → Exce
      | some b => attemptTried cfg b pivot f
      | none => [])
 
+/-! ### the advanced-shard-awareness block (`connection_pool.rs:764-797, 940-950`)
+
+`handle_ready_connection`, `Ok` arm: `shard_id = shard_info.map_or(0, |s| s.shard)`, `sharder = shard_info.map(get_sharder)`;
+`if let Some(requested) = evt.requested_shard && Some(&requested.sharder) == sharder.as_ref() && requested.shard != shard_id
+{ self.block_advanced_shard_awareness() }`. `block_advanced_shard_awareness`: nothing if a block is in effect, else
+`blocked_until = Some(now + 300 s)`. `is_advanced_shard_awareness_blocked`: `blocked_until.is_some_and(|until| now < until)`.
+`can_use_shard_aware_port`: sharder and shard-aware port known, allowed by the configuration, and not blocked.
+The clock (`tokio::time::Instant::now()`, here a natural number of seconds) is an input of every arrival. -/
+
+/-- `Sharder` (`nr_shards`, `msb_ignore`): compared with `==` as a whole. -/
+structure SharderK where
+  nr : Nat
+  msb : Nat
+  deriving Repr, DecidableEq
+
+/-- A connection that became ready: what it was requested with, what the node reported, and the clock. -/
+structure Arrival where
+  requested : Option (Nat × SharderK)   -- `evt.requested_shard` (`None`: a plain attempt)
+  reportedShard : Nat                   -- `shard_id` (0 without shard info)
+  reportedSharder : Option SharderK     -- `None`: the node sent no shard info
+  now : Nat
+  deriving Repr, DecidableEq
+
+def blockSeconds : Nat := 300
+
+/-- `is_advanced_shard_awareness_blocked` at time `now`. -/
+def isBlocked (blockedUntil : Option Nat) (now : Nat) : Bool :=
+  match blockedUntil with
+  | some u => decide (now < u)
+  | none => false
+
+/-- `block_advanced_shard_awareness` at time `now`: never re-armed while in effect. -/
+def armBlock (blockedUntil : Option Nat) (now : Nat) : Option Nat :=
+  if isBlocked blockedUntil now then blockedUntil else some (now + blockSeconds)
+
+/-- The condition of `handle_ready_connection:940-950`. -/
+def isMiss (a : Arrival) : Bool :=
+  match a.requested with
+  | some (shard, sharder) => decide (a.reportedSharder = some sharder) && decide (shard ≠ a.reportedShard)
+  | none => false
+
+def onArrival (blockedUntil : Option Nat) (a : Arrival) : Option Nat :=
+  if isMiss a then armBlock blockedUntil a.now else blockedUntil
+
+/-- Any history of arrivals, from `PoolRefiller::new` (`advanced_shard_awareness_blocked_until: None`) or any state. -/
+def runArrivals (blockedUntil : Option Nat) : List Arrival → Option Nat
+  | [] => blockedUntil
+  | a :: as => runArrivals (onArrival blockedUntil a) as
+
+/-- `can_use_shard_aware_port` at time `now`. -/
+def canUseShardAwarePort (sharder shardAwarePort : Option Nat) (allowed : Bool) (blockedUntil : Option Nat) (now : Nat) : Bool :=
+  sharder.isSome && shardAwarePort.isSome && allowed && !isBlocked blockedUntil now
+
 end ScyllaVerif.C11PoolAttempt
